@@ -319,7 +319,7 @@ theorem back_good (s : AState) (h : s.Ok) : Good s.back (Spec.back s.elems) := b
   rw [size_eq, List.getLast?_eq_getElem?]
   by_cases c : s.elems.length = 0
   · have : s.elems = [] := List.eq_nil_of_length_eq_zero c
-    simp [c, this, Good, obsA]
+    simp [this, Good, obsA]
   · simp only [c, if_false]; exact get_good s h _
 
 theorem copyFrom_good (s o : AState) (h : s.Ok) (he : s.elems = []) (ho : o.Ok) :
